@@ -5,7 +5,7 @@ Require Import ExtrOcamlBasic.
 From MV Require Import Bytes Base64Model CredModel RetryModel CredHistory V3Spec V3Accept.
 Extraction Language OCaml.
 Extraction "model.ml"
-  b2n n2b msg0 msg_reset set_err enc_process enc_pre enc_core dec_process dec_rollback
+  b2n n2b msg0 msg_reset set_err enc_process enc_pre enc_core dec_process dec_process2 dec_rollback
   dec_unarmor dec_unpack_outer dec_decrypt_mac dec_decompress dec_unpack_inner dec_parse
   dec_time dec_authorized cred_rkey r_mem armor pack_outer pack_inner
   cbc_encrypt cbc_decrypt pkcs_pad pkcs_unpad zip_compress zip_decompress_length
